@@ -576,6 +576,39 @@ fn wire_leg(rep: &mut Report, seed: u64, n: usize) {
                 Err(e) => rep.violation("C12/wire/client-cat-failed", json!({"options": format!("{:?}", opts), "error": e})),
             }
         }
+        // the command-line client is a boundary too: a malformed --ttl is refused there (non-zero exit, nothing
+        // stored); a well-formed one arrives as given
+        if let Some(bin) = crate::session::self_exe().parent().map(|p| p.join("xs-real")).filter(|b| b.exists()) {
+            let run = |args: &[&str]| -> Option<(i32, Vec<u8>)> {
+                let out = std::process::Command::new("timeout").arg("-k").arg("2").arg("20").arg(&bin).args(args).stdin(std::process::Stdio::null()).output().ok()?;
+                Some((out.status.code().unwrap_or(-1), out.stdout))
+            };
+            let before = crate::model::parse_pairs(&sess.call(json!({"op": "read_sync", "digest": true}))?["frames"]).len();
+            let bad = ["head:0", "head:-1", "head:4294967296", "head:", "time:-5", "time:18446744073709551616", "time:1.5", "sometimes", "Forever", "", "head:1x", "time:", " forever", "ephemeral "];
+            for b in bad {
+                rep.eval();
+                if let Some((code, _)) = run(&["append", &addr, "cli.bad", "--ttl", b]) {
+                    rep.count("cli.malformed_ttl_probes", 1);
+                    if code == 0 {
+                        rep.violation("C12/cli/malformed-ttl-accepted-by-the-command-line-client", json!({"ttl": b}));
+                    }
+                }
+            }
+            let after = crate::model::parse_pairs(&sess.call(json!({"op": "read_sync", "digest": true}))?["frames"]);
+            if after.len() != before {
+                rep.violation("C12/cli/malformed-ttl-request-stored-a-frame", json!({"frames_before": before, "frames_after": after.len()}));
+            }
+            for (spelling, want) in [("forever", TTL::Forever), ("head:3", TTL::Head(3)), ("time:86400000", TTL::Time(Duration::from_millis(86_400_000))), ("head:4294967295", TTL::Head(u32::MAX))] {
+                rep.eval();
+                if let Some((code, out)) = run(&["append", &addr, "cli.ok", "--ttl", spelling]) {
+                    rep.count("cli.valid_ttl_probes", 1);
+                    match serde_json::from_slice::<Frame>(&out) {
+                        Ok(f) if code == 0 && f.ttl == Some(want.clone()) => {}
+                        other => rep.violation("C12/cli/valid-ttl-did-not-arrive-as-given", json!({"ttl": spelling, "exit": code, "reply": other.ok().map(|f| trim(&f))})),
+                    }
+                }
+            }
+        }
         Ok(())
     })();
     if let Err(e) = r {
